@@ -156,7 +156,7 @@ def F18():
 
 def F19():
     from multidecoder.decoders.shell import find_powershell_strings
-    hits = find_powershell_strings(b"^powershell -enc aABlAGwAbABvAA==")
+    hits = find_powershell_strings(b"^powershell -enc 0x41,0x42,V")
     return any(not (0 <= c.start <= c.end <= len(h.value)) for h in hits for c in h.children)
 
 
@@ -181,7 +181,28 @@ def F20():
     return bad
 
 
-ALL = ["F1", "F2", "F3", "F4", "F5", "F6", "F7", "F8", "F9", "F12", "F13", "F14", "F15", "F16", "F18", "F19", "F10", "F20"]
+def F21():
+    from multidecoder.decoders.network import find_urls
+    return raises(lambda: find_urls(b"x http://[::1%2E]/ y"), ValueError)
+
+
+def F22():
+    from multidecoder.decoders.network import find_urls
+    bad = False
+    for d, host in ((b"http://@host.com/", b"host.com"), (b"http://user:@host.com/", b"host.com"), (b"http://a%20b.com/x", b"a%20b.com")):
+        for u in find_urls(d):
+            for c in u.children:
+                if c.type in ("network.domain", "network.ip") and u.value[c.start:c.end] != host:
+                    bad = True
+    return bad
+
+
+def F23():
+    from multidecoder.decoders.network import find_ips
+    return len(find_ips(b"1.2.3.4 <t>")) != len(find_ips(b" 1.2.3.4 <t>"))
+
+
+ALL = ["F1", "F2", "F3", "F4", "F5", "F6", "F7", "F8", "F9", "F12", "F13", "F14", "F15", "F16", "F18", "F19", "F10", "F20", "F21", "F22", "F23"]
 if __name__ == "__main__":
     for name in (sys.argv[1:] or ALL):
         try:
